@@ -1,14 +1,15 @@
 """C07 — obstacle-lanelet assignment is geometrically correct and invertible.
 
-  A1 SAME-SET    at every assignment site the id set registered on the lanelets originates from the
-                 same lookup call as the set stored as the obstacle's *shape* assignment (unless the
-                 caller asked for centre-only assignment)
-  A1 LOOKUP-ARGS the shape set comes from find_lanelet_by_shape(<shape placed at the state /
-                 occupancy at the time step>), the centre set from find_lanelet_by_position([<that
-                 state>.position]); registry time step = time step of that state
-  A2 INVERSE     Scenario._add/_remove_*_obstacle_*_lanelets iterate the same assignment attributes
-  A2 TOTAL       the removing side uses only non-raising operations
-  A3 SIBLINGS    the reader implementations (XML, protobuf) have the same assignment signature
+  A1 SAME-SET    Scenario.assign_obstacles_to_lanelets, evaluated on a small world (c07ev): the recorded centre sets
+                 are the position look-ups of the obstacle's own positions, the recorded shape sets the shape look-ups
+                 of its own occupancies, per time step, and the lanelet registries exactly their inverse; every other
+                 function that registers obstacles on lanelets lies in a module covered by an evaluated rule
+  A1 LOOKUP-IMPL the look-ups the assignment relies on (shared with C06)
+  A2 INVERSE / TOTAL  the add / remove helpers and remove_obstacle, evaluated: registries = inverse of the shape
+                 assignment after adding, free of the obstacle after removing; removing never raises
+  A3 READERS     both file readers x static / dynamic obstacle x assignment on / off, evaluated (c07ev.reader_rules):
+                 the obstacle read carries the look-ups of its own placed shape and of its centre at each of its
+                 states, the lanelets register it inversely (one expectation for both readers: they agree)
 """
 import ast
 
@@ -24,329 +25,44 @@ SHAPE_SINKS = ("initial_shape_lanelet_ids", "shape_lanelet_assignment")
 CENTER_SINKS = ("initial_center_lanelet_ids", "center_lanelet_assignment")
 
 
-class _Key(ast.Subscript):
-    """pseudo target `<dict>[key]` of a dict comprehension entry"""
-
-    def __init__(self, text):
-        self.text = text
-        self.value = ast.Name(id="<returned dict>", ctx=ast.Load())
-        self.slice = ast.Name(id=text, ctx=ast.Load())
-        self.ctx = ast.Store()
-
-
-def origins(rd, expr, at, depth=0):
-    """Lookup calls (find_lanelet_by_shape / find_lanelet_by_position) the value of expr stems from,
-    following set(..), subscripts and local aliases.  Returns list of (call node, guards-of-the-def)."""
-    out = []
-    if depth > 8:
-        return out
-    if isinstance(expr, ast.Call):
-        cn = norm(expr.func)
-        if cn.endswith("find_lanelet_by_shape") or cn.endswith("find_lanelet_by_position"):
-            return [expr]
-        if cn in ("set", "list", "frozenset", "sorted", "tuple") and expr.args:
-            return origins(rd, expr.args[0], at, depth + 1)
-        return out
-    if isinstance(expr, ast.Subscript):
-        return origins(rd, expr.value, at, depth + 1)
-    if isinstance(expr, ast.Name):
-        for d in rd.defs(expr.id, at):
-            if d.node is not None and d.kind == "assign":
-                out += origins(rd, d.node, d.stmt, depth + 1)
-    return out
-
-
-def time_exprs(mod, fn, rd, o, params=()):
-    """Time-step expressions of the state(s) a lookup call was made for, each with the guards at its definition."""
-    out = []
-
-    def N(e, at=None):
-        return canon(e, rd, at if at is not None else rd.stmt_of(o), params)
-
-    a = o.args[0] if o.args else None
-    if a is None:
-        return out
-    srcs = [(a, o)]
-    if isinstance(a, ast.Name):
-        srcs = [(d.node, d.stmt) for d in rd.defs(a.id, o) if d.node is not None]
-    for s_, at in srcs:
-        g = [(canon(t, rd, at, params), pol) for t, pol in dominating_guards(mod, at, stop=fn)] if isinstance(at, ast.stmt) else []
-        if isinstance(s_, ast.Call) and isinstance(s_.func, ast.Attribute) and s_.func.attr == "rotate_translate_local" and s_.args:
-            p = N(s_.args[0], at if isinstance(at, ast.stmt) else None)
-            out.append((p[: -len(".position")] + ".time_step" if p.endswith(".position") else "?" + p, g))
-        elif isinstance(s_, ast.Attribute) and s_.attr == "shape" and isinstance(s_.value, ast.Call) and s_.value.args:
-            out.append((N(s_.value.args[0], at if isinstance(at, ast.stmt) else None), g))
-        elif isinstance(s_, ast.List) and len(s_.elts) == 1:
-            e = s_.elts[0]
-            cands = [(e, at)]
-            if isinstance(e, ast.Name):
-                cands = [(d.node, d.stmt) for d in rd.defs(e.id, o) if d.node is not None]
-            for c, cat in cands:
-                g2 = [(canon(t, rd, cat, params), pol) for t, pol in dominating_guards(mod, cat, stop=fn)] if isinstance(cat, ast.stmt) else g
-                t = N(c, cat if isinstance(cat, ast.stmt) else None)
-                if isinstance(c, ast.Attribute) and c.attr == "position" and isinstance(c.value, ast.Call) and norm(c.value.func).endswith("state_at_time_step") and c.value.args:
-                    out.append((N(c.value.args[0], cat if isinstance(cat, ast.stmt) else None), g2))
-                elif t.endswith(".position"):
-                    out.append((t[: -len(".position")] + ".time_step", g2))
-                else:
-                    out.append(("?" + t, g2))
-        else:
-            out.append(("?" + norm(s_), g))
-    return out
-
-
-def time_matches(ts, texprs):
-    for t, g in texprs:
-        if t == ts:
-            continue
-        if ("%s == %s" % (ts, t), True) in g or ("%s == %s" % (t, ts), True) in g:
-            continue
-        return False
-    return bool(texprs)
-
-
-def _run_lookup_only(res, mod, fn, qn, rd, ors, sig, seen):
-    for o in ors:
-        if id(o) in seen:
-            continue
-        seen.add(id(o))
-        ok, kind = lookup_arg_ok(rd, o)
-        res.check("A1-LOOKUP-ARGS", "%s: %s lookup %s" % (qn, kind, norm(o)[:90]), ok, mod, o, "%s: %s" % (qn, norm(o)[:120]), "the %s lanelets are not looked up with the obstacle's %s at the state in question" % (kind, "placed shape" if kind == "shape" else "centre position"), qualname=qn)
-        sig.append((kind, "ok" if ok else "bad"))
-
-
-def lookup_arg_ok(rd, o):
-    kind = "shape" if norm(o.func).endswith("find_lanelet_by_shape") else "center"
-    arg = o.args[0] if o.args else None
-    ok = False
-    if kind == "shape" and arg is not None:
-        srcs = [arg]
-        if isinstance(arg, ast.Name):
-            srcs = [d.node for d in rd.defs(arg.id, o) if d.node is not None]
-        ok = bool(srcs)
-        for s in srcs:
-            if isinstance(s, ast.Call) and isinstance(s.func, ast.Attribute) and s.func.attr == "rotate_translate_local" and len(s.args) == 2:
-                p, orr = norm(s.args[0]), norm(s.args[1])
-                if not (p.endswith(".position") and orr.endswith(".orientation") and p[: -len(".position")] == orr[: -len(".orientation")]):
-                    ok = False
-            elif isinstance(s, ast.Attribute) and s.attr == "shape" and isinstance(s.value, ast.Call) and norm(s.value.func).endswith(".occupancy_at_time"):
-                pass
-            else:
-                ok = False
-    elif arg is not None:
-        t = norm(arg)
-        ok = isinstance(arg, ast.List) and len(arg.elts) == 1 and (t.endswith(".position]") or isinstance(arg.elts[0], ast.Name))
-        if ok and not t.endswith(".position]"):
-            ds = [norm(d.node) for d in rd.defs(arg.elts[0].id, o) if d.node is not None]
-            ok = bool(ds) and all(x.endswith(".position") for x in ds)
-    return ok, kind
-
-
 def assignment_sites(repo):
     """(module, qualname, function) of every function that registers obstacles on lanelets."""
     out = []
-    for rel in (SC, RX, RP):
-        m = repo.mod(rel)
+    for rel in sorted(repo.modules):
+        m = repo.modules[rel]
+        if "/visualization/" in rel:
+            continue
         for n in ast.walk(m.tree):
             if isinstance(n, ast.FunctionDef):
-                if any(isinstance(c, ast.Call) and isinstance(c.func, ast.Attribute) and (c.func.attr in REGISTER or c.func.attr in ("find_lanelet_by_shape", "find_lanelet_by_position")) for c in walk_no_nested(n)):
+                if any(isinstance(c, ast.Call) and isinstance(c.func, ast.Attribute) and c.func.attr in REGISTER for c in walk_no_nested(n)):
                     if m.parent.get(n) is not None and not (isinstance(m.parent.get(n), ast.ClassDef) and m.parent.get(n).name in ("Lanelet", "LaneletNetwork")):
                         out.append((m, m.qualname(n), n))
     return out
 
 
 def run(repo, res, tier):
-    res.rule("A1-SAME-SET", "registered id set and stored shape assignment originate from the same lookup call", 6)
-    res.rule("A1-LOOKUP-ARGS", "shape lookup uses the shape placed at the state, centre lookup that state's position, registry time step that state's time step", 10)
+    res.rule("A1-SAME-SET", "recorded sets are the look-ups of the obstacle's own position / occupancy per time step and the registries their inverse (Scenario, evaluated); every assigning place is covered by an evaluated rule", 7)
     res.rule("A2-INVERSE", "add and remove helpers iterate the same assignment attributes", 2)
     res.rule("A2-TOTAL", "obstacle removal from lanelet registries uses only non-raising operations", 6)
-    res.rule("A3-SIBLINGS", "XML and protobuf readers assign with the same signature", 3)
+    res.rule("A3-READERS", "both file readers, evaluated: an obstacle read carries the look-ups of its own placed shape and centre per state, registries inverse", 8)
     res.rule("A1-LOOKUP-IMPL", "the lookups the assignment relies on filter candidates by geometry and map them to lanelet ids", 2)
     from .c06 import lookup_rules
 
     lookup_rules(repo, res, "A1-LOOKUP-IMPL")
 
     sites = assignment_sites(repo)
-    if len(sites) < 7:
+    if len(sites) < 5:
         raise AnalysisError("only %d assignment sites found (8 confirmed: 2 in Scenario.assign_obstacles_to_lanelets, 3 per reader)" % len(sites))
-    signatures = {}
+    # every site lies in Scenario (evaluated below: c07ev.assign_rule) or in one of the two file readers (evaluated:
+    # c07ev.reader_rules); a site anywhere else is not covered by an evaluated rule and is reported as such
     for mod, qn, fn in sites:
-        rd = ReachingDefs(fn)
-        params = [a.arg for a in fn.args.args]
-        # --- registry loops
-        regs = []
-        for c in walk_no_nested(fn):
-            if isinstance(c, ast.Call) and isinstance(c.func, ast.Attribute) and c.func.attr in REGISTER:
-                loop = mod.parent.get(c)
-                while loop is not None and not isinstance(loop, ast.For):
-                    loop = mod.parent.get(loop)
-                if loop is None or loop is fn:
-                    raise AnalysisError("%s: registration outside a loop over lanelet ids" % qn)
-                regs.append((c, loop))
-        # --- stores of shape / centre assignments
-        shape_vals, center_vals = [], []
-        for n in walk_no_nested(fn):
-            tgt_names = []
-            val = None
-            if isinstance(n, ast.Assign):
-                val = n.value
-                for t in n.targets:
-                    if isinstance(t, ast.Attribute):
-                        tgt_names.append(t.attr)
-                    elif isinstance(t, ast.Subscript):
-                        ch = attr_chain(t.value)
-                        tgt_names.append(ch[-1] if ch else norm(t.value))
-                    elif isinstance(t, ast.Name):
-                        tgt_names.append(t.id)
-            for tn in tgt_names:
-                if tn in SHAPE_SINKS or (tn == "lanelet_ids_per_state" and "shape" in fn.name):
-                    shape_vals.append((val, n))
-                elif tn in CENTER_SINKS or (tn == "lanelet_ids_per_state" and "center" in fn.name):
-                    center_vals.append((val, n))
-        # `return {key: value for ..}` of a per-time-step assignment function is a store of value under key
-        for n in walk_no_nested(fn):
-            if isinstance(n, ast.Return) and isinstance(n.value, ast.DictComp) and ("shape" in fn.name or "center" in fn.name):
-                fake = ast.Assign(targets=[_Key(canon(n.value.key, rd, n, params))], value=n.value.value, lineno=n.lineno)
-                (shape_vals if "shape" in fn.name else center_vals).append((n.value.value, fake))
-        # locals named like the sinks that reach a constructor keyword of the same name count too
-        sig = []
-        seen_lookups = set()
-        if not regs:
-            # a site that only computes an assignment (no registration): check its lookups
-            only = []
-            for v, st in center_vals + shape_vals:
-                if v is not None:
-                    only += origins(rd, v, st)
-            if only:
-                res.ok("A1-SAME-SET", "%s: assignment-only site" % qn)
-                _run_lookup_only(res, mod, fn, qn, rd, only, sig, seen_lookups)
-        for c, loop in regs:
-            reg_or = origins(rd, loop.iter, loop)
-            inst = "%s: registry loop over %s" % (qn, norm(loop.iter))
-            if not reg_or:
-                # registration straight from a stored shape assignment is consistent by construction
-                stored = set()
-                for e in [loop.iter] + [lp.iter for lp in ast.walk(fn) if isinstance(lp, ast.For) and any(x is loop for x in ast.walk(lp))]:
-                    for x in ast.walk(e):
-                        if isinstance(x, ast.Attribute) and x.attr.lstrip("_") in SHAPE_SINKS:
-                            stored.add(x.attr.lstrip("_"))
-                    if isinstance(e, ast.Name):
-                        for d in rd.defs(e.id, loop):
-                            if d.node is not None:
-                                for x in ast.walk(d.node):
-                                    if isinstance(x, ast.Attribute) and x.attr.lstrip("_") in SHAPE_SINKS:
-                                        stored.add(x.attr.lstrip("_"))
-                if stored:
-                    res.ok("A1-SAME-SET", inst + " (stored assignment %s)" % sorted(stored))
-                    continue
-                res.bad("A1-SAME-SET", inst, Finding("A1-SAME-SET", mod, loop, inst, "the registered id set does not stem from a lanelet lookup", qualname=qn))
-                continue
-            sh_or = []
-            for v, st in shape_vals:
-                if v is not None and not (isinstance(v, ast.Constant) and v.value is None):
-                    sh_or += origins(rd, v, st)
-            bad = []
-            for o in reg_or:
-                if any(o is s for s in sh_or):
-                    continue
-                # alternative accepted only under use_center_only
-                defsite = mod.parent.get(o)
-                while defsite is not None and not isinstance(defsite, ast.stmt):
-                    defsite = mod.parent.get(defsite)
-                # find the assignment that makes the loop variable point to this origin
-                accepted = False
-                if isinstance(loop.iter, ast.Name):
-                    for d in rd.defs(loop.iter.id, loop):
-                        if d.node is not None and any(x is o for x in origins(rd, d.node, d.stmt)):
-                            g = dominating_guards(mod, d.stmt, stop=fn)
-                            if any(pol and norm(t) == "use_center_only" for t, pol in g):
-                                accepted = True
-                if not accepted:
-                    bad.append(o)
-            res.check(
-                "A1-SAME-SET",
-                inst,
-                not bad and bool(sh_or),
-                mod,
-                loop,
-                "%s: lanelets registered from %s, shape assignment stored from %s" % (qn, [norm(o.func).split(".")[-1] for o in reg_or], [norm(o.func).split(".")[-1] for o in sh_or]),
-                "the lanelet registries are filled from another set than the obstacle's shape assignment: registry and assignment are not inverse (removal then fails or leaves entries)",
-                qualname=qn,
-            )
-            # --- lookup arguments (each lookup call of the function is checked once)
-            for o in [x for x in reg_or + [y for v, st in center_vals if v is not None for y in origins(rd, v, st)] if id(x) not in seen_lookups and not seen_lookups.add(id(x))]:
-                kind = "shape" if norm(o.func).endswith("find_lanelet_by_shape") else "center"
-                arg = o.args[0] if o.args else None
-                state = None
-                ok = False
-                if kind == "shape" and arg is not None:
-                    srcs = [arg]
-                    if isinstance(arg, ast.Name):
-                        srcs = [d.node for d in rd.defs(arg.id, o) if d.node is not None]
-                    ok = bool(srcs)
-                    for s in srcs:
-                        t = norm(s)
-                        if isinstance(s, ast.Call) and isinstance(s.func, ast.Attribute) and s.func.attr == "rotate_translate_local" and len(s.args) == 2:
-                            p, orr = norm(s.args[0]), norm(s.args[1])
-                            if p.endswith(".position") and orr.endswith(".orientation") and p[: -len(".position")] == orr[: -len(".orientation")]:
-                                state = p[: -len(".position")]
-                            else:
-                                ok = False
-                        elif isinstance(s, ast.Attribute) and s.attr == "shape" and isinstance(s.value, ast.Call) and norm(s.value.func).endswith(".occupancy_at_time"):
-                            state = "@" + norm(s.value.args[0]) if s.value.args else None
-                        else:
-                            ok = False
-                elif arg is not None:
-                    t = norm(arg)
-                    ok = isinstance(arg, ast.List) and len(arg.elts) == 1 and (t.endswith(".position]") or isinstance(arg.elts[0], ast.Name))
-                    if ok and t.endswith(".position]"):
-                        state = t[1 : -len(".position]")]
-                    elif ok:
-                        ds = [norm(d.node) for d in rd.defs(arg.elts[0].id, o) if d.node is not None]
-                        ok = bool(ds) and all(x.endswith(".position") for x in ds)
-                        state = "|".join(sorted(x[: -len(".position")] for x in ds))
-                res.check(
-                    "A1-LOOKUP-ARGS",
-                    "%s: %s lookup %s" % (qn, kind, norm(o)[:90]),
-                    ok,
-                    mod,
-                    o,
-                    "%s: %s" % (qn, norm(o)[:120]),
-                    "the %s lanelets are not looked up with the obstacle's %s at the state in question" % (kind, "placed shape" if kind == "shape" else "centre position"),
-                    qualname=qn,
-                )
-                sig.append((kind, "ok" if ok else "bad"))
-            # registry time step
-            kw = {k.arg: canon(k.value, rd, rd.stmt_of(c), params) for k in c.keywords}
-            if c.func.attr == "add_dynamic_obstacle_to_lanelet":
-                ts = kw.get("time_step") or (canon(c.args[1], rd, rd.stmt_of(c), params) if len(c.args) > 1 else None)
-                tex = [x for o in reg_or for x in time_exprs(mod, fn, rd, o, params)]
-                ok = ts is not None and time_matches(ts, tex)
-                res.check("A1-LOOKUP-ARGS", "%s: registry time step %s is the time step of the looked-up state %s" % (qn, ts, sorted({t for t, _g in tex})), ok, mod, c, "%s: add_dynamic_obstacle_to_lanelet(time_step=%s) for lookups at %s" % (qn, ts, sorted({t for t, _g in tex})), "the obstacle is registered under another time step than the one its occupancy was computed for", qualname=qn)
-        # per-time-step assignment dictionaries: key = time step of the looked-up state
-        for vals, what in ((shape_vals, "shape"), (center_vals, "center")):
-            for v, st in vals:
-                if v is None or not isinstance(st, ast.Assign) or not isinstance(st.targets[0], ast.Subscript):
-                    continue
-                key = canon(st.targets[0].slice, rd, st, params) if not isinstance(st.targets[0], _Key) else st.targets[0].text
-                tex = [x for o in origins(rd, v, st) for x in time_exprs(mod, fn, rd, o, params)]
-                if not tex:
-                    continue
-                res.check("A1-LOOKUP-ARGS", "%s: %s assignment stored under %s for lookups at %s" % (qn, what, key, sorted({t for t, _g in tex})), time_matches(key, tex), mod, st, "%s: %s stored for lookups at %s" % (qn, norm(st.targets[0]), sorted({t for t, _g in tex})), "the %s lanelets of one time step are stored under another time step" % what, qualname=qn)
-        signatures[(mod.rel, fn.name if fn.name != "create_from_xml_node" and fn.name != "create_from_message" else mod.qualname(fn).split(".")[0])] = sorted(set(sig))
-
-    # ---------------- A3 siblings: same set of site names and verdict signatures in both readers
-    x = {k[1]: v for k, v in signatures.items() if k[0] == RX}
-    p = {k[1]: v for k, v in signatures.items() if k[0] == RP}
-    for name in sorted(set(x) | set(p)):
-        alias = {"TrajectoryPredictionFactory": "DynamicObstacleFactory"}
-        ok = name in x and name in p and x[name] == p[name]
-        res.check("A3-SIBLINGS", "reader assignment site %s agrees (xml=%s, protobuf=%s)" % (name, x.get(name), p.get(name)), ok, repo.mod(RP), None, "reader site %s xml=%s protobuf=%s" % (name, x.get(name), p.get(name)), "the XML and protobuf readers assign obstacles to lanelets differently", qualname=name)
-
+        covered = mod.rel in ("commonroad/scenario/scenario.py", "commonroad/common/reader/file_reader_xml.py", "commonroad/common/reader/file_reader_protobuf.py")
+        res.check("A1-SAME-SET", "assignment site %s lies in a module whose assignment is evaluated" % qn, covered, mod, fn, "%s assigns obstacles to lanelets outside the scenario and the file readers" % qn, "a place that assigns obstacles to lanelets is not covered by the evaluated rules: its assignment and registries are not known to be inverse", qualname=qn)
     # ---------------- A1 (Scenario side) and A2: decided by abstract evaluation on a small world (c07ev) — registries
     # and recorded sets are compared after the operation, whatever the code of the operation looks like
     from . import c07ev
 
     c07ev.assign_rule(repo, res)
     c07ev.add_remove_rules(repo, res)
+    c07ev.reader_rules(repo, res, "A3-READERS")
     return {"assignment_sites": [q for _m, q, _f in sites]}
